@@ -1448,13 +1448,21 @@ func runC05(ctx *Ctx) *Result {
 		}
 		tgt := strings.Join(c.TgtRoutes, ls)
 		// ---- first approve, cut
-		impl1, _, cmds1 := run.deviceRun2(false, routesOut, iptOut, spoc, -1, c.Cut)
+		// cut "route": the session dies when route command number FailAt arrives, with the iptables change still ahead
+		failAt, dieAt := -1, c.Cut
+		if c.Cut == "route" {
+			failAt, dieAt = c.FailAt, ""
+		}
+		impl1, _, cmds1 := run.deviceRun2(false, routesOut, iptOut, spoc, failAt, dieAt)
 		res.TracesVsImpl++
-		res.Eval("iptresume\x00"+c.Cut+"\x00"+c.Dev+"\x00"+spoc, needIpt || needRt)
+		res.Eval(fmt.Sprintf("iptresume\x00%s\x00%d\x00%s\x00%s", c.Cut, failAt, c.Dev, spoc), needIpt || needRt)
 		rc1, loaded1, moved1 := routeCmds(cmds1)
-		if needIpt && impl1.Status == 0 {
+		if c.Cut != "route" && needIpt && impl1.Status == 0 {
+			// the command the host dies at was never sent: reported, and the oracle below still judges the outcome
 			res.Disagree("c05 ipt-resume: the session died at "+c.Cut+" but approve reports success", c, impl1.Stderr, "abort expected")
-			return
+		}
+		if impl1.Status == 0 {
+			res.Count("ipt-resume:first approve not cut")
 		}
 		res.Count(fmt.Sprintf("ipt-resume:cut=%s,loaded=%v,moved=%v", c.Cut, loaded1, moved1))
 		o1 := strings.Split(drv.Ask(strings.Join([]string{"rexec", encRoutes(c.DevRoutes), strings.Join(rc1, ls), tgt}, fs)), fs)
@@ -1546,6 +1554,11 @@ func runC05(ctx *Ctx) *Result {
 					Signature map[string]any `json:"signature"`
 				}
 				if json.Unmarshal([]byte(l), &e) == nil && e.Status == "known" {
+					if l, isList := e.Signature["pred"].([]any); isList {
+						for _, x := range l {
+							known[fmt.Sprint(x)] = true
+						}
+					}
 					known[fmt.Sprint(e.Signature["pred"])] = true
 				}
 			}
@@ -1562,7 +1575,7 @@ func runC05(ctx *Ctx) *Result {
 		return res
 	}
 
-	cuts := []string{"which", "chmod", "echo-after-chmod", "exec", "echo-after-exec", "mv", "echo-after-mv"}
+	cuts := []string{"route", "route", "which", "chmod", "echo-after-chmod", "exec", "echo-after-exec", "mv", "echo-after-mv"}
 	genIptResume := func(rng *RNG) *c05Case {
 		c := &c05Case{Abstract: true, Names: rng.Bool(), Stream: "ipt-resume", FailAt: -1}
 		c.DevRoutes, c.TgtRoutes, _ = genRoutes(rng, routeGenOpts{multiHop: rng.Chance(25), max: 5}, res)
@@ -1592,6 +1605,9 @@ func runC05(ctx *Ctx) *Result {
 			c.DevRS = nil // a fresh host
 		}
 		c.Cut = Pick(rng, cuts)
+		if c.Cut == "route" {
+			c.FailAt = rng.Intn(4)
+		}
 		return c
 	}
 	genRouteSteps := func(rng *RNG) *c05Case {
@@ -1632,7 +1648,7 @@ func runC05(ctx *Ctx) *Result {
 	}
 	if c10Mode {
 		res.Rule = "Linux share of C10: the REAL approve (drc against the simulated Linux host) is cut — the session dies when route command k arrives " +
-			"(stream device-resume), or at `which iptables-restore` (after the routes, before iptables), at chmod / at the restore file (before it is loaded), " +
+			"(stream device-resume; with an iptables change still ahead: cut `route` of stream ipt-resume), or at `which iptables-restore` (after the routes, before iptables), at chmod / at the restore file (before it is loaded), " +
 			"behind the load or at mv (loaded, start-up file not yet replaced), behind mv (between the two start-up copies) (stream ipt-resume); the state the host is left in is " +
 			"computed by the Lean specification; a second undisturbed approve must succeed and converge (routes: strict kernel table; iptables: the target's rule set loaded) " +
 			"and a further compare must report nothing; the start-up files are tracked as well. non-trivial = the plan had at least one changing command"
